@@ -75,6 +75,29 @@ func normalize(v interface{}) interface{} {
 func (g *gen) oneBody(in reqIn) {
 	r := g.r
 	s := g.send(in)
+	if in.Rerun != "" && !strings.HasPrefix(s.Err, "harness:") {
+		// the exchange is sent twice (retry after a 503 / digest re-send after a 401): both attempts must
+		// carry what the caller supplied; each is judged and emitted like a single exchange
+		if s.First == nil || s.Arrived == nil {
+			r.Fail(hk.Failure{Sig: "rerun:" + in.Rerun + ":not-resent:" + in.Kind, What: "the request was not sent twice: " + s.Err, Input: in})
+			return
+		}
+		for i, a := range []*arrived{s.First, s.Arrived} {
+			n0 := len(r.Failures)
+			one := in
+			g.judge(one, sentReq{Err: s.Err, Arrived: a}, fmt.Sprintf("|attempt%d", i+1))
+			for j := n0; j < len(r.Failures); j++ {
+				r.Failures[j].Sig = fmt.Sprintf("rerun:%s:attempt%d:%s", in.Rerun, i+1, r.Failures[j].Sig)
+			}
+		}
+		return
+	}
+	g.judge(in, s, "")
+}
+
+// judge: oracle + Coq case for one arrived request.
+func (g *gen) judge(in reqIn, s sentReq, keySuffix string) {
+	r := g.r
 	if strings.HasPrefix(s.Err, "harness:") {
 		r.Fail(hk.Failure{Sig: "harness:" + in.Kind, What: s.Err, Input: in})
 		return
@@ -97,20 +120,26 @@ func (g *gen) oneBody(in reqIn) {
 		if a != nil && s.Err == "" {
 			_, parts, perr = serverParts(a)
 		}
+		if in.SetFiles && perr == nil && a != nil && s.Err == "" {
+			// SetFiles attaches the files in map iteration order: take the order in which they arrived
+			// (every supplied file exactly once), then judge as usual
+			in = reorderFiles(in, parts)
+			r.Count("multipart:SetFiles")
+		}
 		g.oracleMultipart(in, s, parts, perr)
 		g.oracleUploads(in, s)
-		ctl := false
-		for _, f := range in.allFields() {
-			ctl = ctl || hasCtl(f[0])
-		}
-		for _, f := range in.Files {
-			ctl = ctl || hasCtl(f.Param) || hasCtl(f.Name) || !quoteModelled(f.Param) || !quoteModelled(f.Name)
-		}
-		orderOK = perr == nil && a != nil && s.Err == ""
-		partsOK = orderOK && !ctl
+		orderOK = perr == nil && a != nil && s.Err == "" && len(parts) > 0
+		partsOK = orderOK
 		if in.Chunked || in.Callback != "" {
-			if a != nil && s.Err == "" && !(len(a.TE) == 1 && a.TE[0] == "chunked") {
-				r.Fail(hk.Failure{Sig: "multipart:not-chunked", What: "forced chunked encoding was not used", Input: in, Got: a.TE})
+			// unknown length: chunked on HTTP/1.1, no content-length on h2 / h3 (DATA frames until END_STREAM / FIN)
+			if a != nil && s.Err == "" {
+				ok := len(a.TE) == 1 && a.TE[0] == "chunked"
+				if in.Proto != "" {
+					ok = a.CL == -1
+				}
+				if !ok {
+					r.Fail(hk.Failure{Sig: "multipart:not-chunked", What: "forced chunked encoding (unknown length) was not used", Input: in, Got: fmt.Sprint(a.TE, a.CL)})
+				}
 			}
 		}
 	case in.Kind == "form":
@@ -140,6 +169,18 @@ func (g *gen) oneBody(in reqIn) {
 				r.Fail(hk.Failure{Sig: "marshal:content-type", What: "XML body under a Content-Type that does not say xml", Input: in, Got: ct})
 			}
 		}
+	case in.Kind == "raw" && in.Stream:
+		if s.Err != "" || a == nil {
+			r.Fail(hk.Failure{Sig: "stream:error", What: "request with an io.Reader body failed: " + s.Err, Input: in})
+		} else if !bytes.Equal(a.Body, in.Raw) {
+			r.Fail(hk.Failure{Sig: "stream:bytes", What: "io.Reader body arrived altered", Input: in, Got: len(a.Body), Want: len(in.Raw)})
+		} else if len(s.Ups) > 0 {
+			for _, u := range s.Ups {
+				if u.Up > int64(len(in.Raw)) {
+					r.Fail(hk.Failure{Sig: "stream:upload-progress:exceeds", What: "upload callback reported more than was sent", Input: in, Got: u.Up})
+				}
+			}
+		}
 	case in.Kind == "raw":
 		if s.Err != "" || a == nil {
 			r.Fail(hk.Failure{Sig: "raw:error", What: "request with a raw body failed: " + s.Err, Input: in})
@@ -147,7 +188,13 @@ func (g *gen) oneBody(in reqIn) {
 			r.Fail(hk.Failure{Sig: "raw:bytes", What: "raw body arrived altered", Input: in, Got: len(a.Body), Want: len(in.Raw)})
 		}
 	}
-	g.emitBody(in, s, parts, orderOK, partsOK, marshalSeen, nt)
+	if a != nil && s.Err == "" {
+		want := map[string]string{"": "HTTP/1.1", "h2": "HTTP/2.0", "h3": "HTTP/3.0"}[in.Proto]
+		if a.Proto != want {
+			r.Fail(hk.Failure{Sig: "harness:proto", What: "the exchange did not use the intended protocol", Input: in, Got: a.Proto, Want: want})
+		}
+	}
+	g.emitBody(in, s, parts, orderOK, partsOK, marshalSeen, nt, keySuffix)
 	g.emitUploads(in, s)
 }
 
@@ -256,4 +303,28 @@ func writeSizes(f fileIn) []int {
 		}
 		return ns
 	}
+}
+
+// reorderFiles: in.Files in the order in which their form names arrived (SetFiles: params are map keys, distinct).
+func reorderFiles(in reqIn, parts []seenPart) reqIn {
+	by := map[string]fileIn{}
+	for _, f := range in.Files {
+		by[f.Param] = f
+	}
+	var out []fileIn
+	seen := map[string]bool{}
+	for _, p := range parts {
+		if !p.HasFileName {
+			continue
+		}
+		if f, ok := by[p.Name]; ok && !seen[p.Name] {
+			seen[p.Name] = true
+			out = append(out, f)
+		}
+	}
+	if len(out) != len(in.Files) {
+		return in // something is missing: judged (and reported) in the supplied order
+	}
+	in.Files = out
+	return in
 }
